@@ -255,6 +255,15 @@ impl Check for CheckPrio2 {
         for k in [15u32, 14, 13, 12] {
             out.push(serde_json::to_value(PlanP::Q { len: (1 << k) - 1, key: Hx(rng.bytes(32)), nonce_seed: rng.u64(), rand: Hx(rng.bytes(64)), max_trials: 8_000_000 }).unwrap());
         }
+        // the largest supported input lengths (the field's capacity is 2n <= 2^20): one honest
+        // report each, end to end
+        for len in [(1u32 << 18) - 1, 1 << 18, (1 << 19) - 1] {
+            let mut inst = gen_prio2_inst(&mut rng, true);
+            inst.len = len;
+            let mut p = base_plan(inst, "honest", &mut rng, 1);
+            p.agg = gen_agg_plan(&mut rng, 2, 1, false);
+            out.push(serde_json::to_value(PlanP::A { plan: p }).unwrap());
+        }
         out
     }
     fn shrink(&self, plan: &Value) -> Vec<Value> {
